@@ -1246,7 +1246,13 @@ where
 	K: Keychain + 'a,
 {
 	// Refuse if TTL is expired
-	let last_confirmed_height = w.last_confirmed_height()?;
+	// (the confirmed height is recorded per account, by that account's refreshes; how far
+	// the wallet has seen the chain does not depend on which account happens to be active:
+	// the block the last update scanned up to is recorded for the wallet as a whole)
+	let last_confirmed_height = std::cmp::max(
+		w.last_confirmed_height()?,
+		w.last_scanned_block().map(|b| b.height).unwrap_or(0),
+	);
 	if slate.ttl_cutoff_height != 0 {
 		if last_confirmed_height >= slate.ttl_cutoff_height {
 			return Err(Error::TransactionExpired);
